@@ -307,15 +307,34 @@ def _subscript(self, ex, st, base, k, node):
 N.Natives.subscript = _subscript
 
 
+slice_rows = z3.Function('slice_rows', sort_of(ROWS), I, I, sort_of(ROWS))      # rows[a:b], 0 <= a <= b <= len
+slice_labels = z3.Function('slice_labels', sort_of(LV), I, I, sort_of(LV))
+
+
 def df_slice(ex, st, base, lo, hi, node):
+    """df[a:b]: the positional row slice (rows and index labels); described by uninterpreted
+    functions with element facts rather than lambda terms (keeps the VCs first-order)"""
     if not is_df(base):
         raise Undecided('slice of %r' % (base.ty,))
     rows, index = rec_field(base, 'rows'), rec_field(base, 'index')
-    nr = N.NATIVES.slice(ex, st, rows, lo, hi, node)
-    ni = N.NATIVES.slice(ex, st, index, lo, hi, node)
+    n = L_len(ROWS, rows.t)
+    lo_t = z3.IntVal(0) if lo is None or isinstance(lo.ty, NoneT) else ex.need_int(st, lo, node, 'slice-index-int').t
+    hi_t = n if hi is None or isinstance(hi.ty, NoneT) else ex.need_int(st, hi, node, 'slice-index-int').t
+    # negative bounds count from the end in Python; the verified code never uses them: obligation
+    ex.oblige(st, 'safety', 'slice-bounds-non-negative', z3.And(lo_t >= 0, hi_t >= 0), node)
+    a = z3.If(lo_t > n, n, lo_t)
+    b = z3.If(hi_t > n, n, hi_t)
+    a_, b_ = z3.Int(fresh_name('sl_a')), z3.Int(fresh_name('sl_b'))
+    st.assume(z3.And(a_ == a, b_ == b))
+    nr, ni = slice_rows(rows.t, a_, b_), slice_labels(index.t, a_, b_)
+    ln_ = z3.If(b_ > a_, b_ - a_, 0)
+    j = z3.Int('j!sl')
+    st.assume(z3.And(L_len(ROWS, nr) == ln_, L_len(LV, ni) == ln_))
+    st.assume(z3.ForAll([j], z3.Implies(z3.And(j >= 0, j < ln_), z3.And(
+        L_get(ROWS, nr, j) == L_get(ROWS, rows.t, a_ + j), L_get(LV, ni, j) == L_get(LV, index.t, a_ + j))),
+        patterns=[L_get(ROWS, nr, j), L_get(LV, ni, j)]))
     note(ex, 'df[a:b] is the positional row slice, with the index labels of those rows')
-    return V(DF, R_mk(DF, cols=R_get(DF, base.t, 'cols'), rows=nr.t, index=ni.t,
-                      dtypes=R_get(DF, base.t, 'dtypes')))
+    return V(DF, R_mk(DF, cols=R_get(DF, base.t, 'cols'), rows=nr, index=ni, dtypes=R_get(DF, base.t, 'dtypes')))
 
 
 N.SLICERS['RecT'] = df_slice
